@@ -87,6 +87,9 @@ func EmitCast[ASTNode antlr.ParserRuleContext](
 		toWasm   = wasm.ConvertType(to)
 	)
 	if fromWasm == toWasm {
+		if fromWasm == wasm.I32 && from.IsInteger() && to.IsInteger() {
+			emitI32CarriedCast(ctx.Writer, from, to)
+		}
 		return nil
 	}
 	var (
@@ -133,5 +136,51 @@ func EmitCast[ASTNode antlr.ParserRuleContext](
 		}
 	}
 	ctx.Writer.WriteOpcode(opCode)
+	if fromWasm == wasm.I64 && toWasm == wasm.I32 && to.IsInteger() &&
+		fromIsSigned == to.IsSignedInteger() {
+		// i32.wrap_i64 keeps 32 bits; finish the truncation to an 8/16-bit target
+		emitI32CarriedCast(ctx.Writer, lo.Ternary(fromIsSigned, types.I32(), types.U32()), to)
+	}
 	return nil
+}
+
+// emitI32CarriedCast converts between two integer types that share a WASM i32
+// register (i8..i32, u8..u32). Widening within the same signedness needs no code
+// (the register already holds the sign/zero extension), narrowing truncates to
+// the target width, and a signed <-> unsigned cast saturates at the bounds of the
+// target type. Saturation goes through f64, which represents every 32-bit
+// integer exactly, to avoid needing a scratch local.
+func emitI32CarriedCast(w *wasm.Writer, from, to types.Type) {
+	if from.Kind == to.Kind {
+		return
+	}
+	bits := uint(8 * to.Density())
+	if from.IsSignedInteger() == to.IsSignedInteger() {
+		if to.Density() >= from.Density() {
+			return
+		}
+		if to.IsSignedInteger() {
+			w.WriteI32Const(int32(32 - bits))
+			w.WriteOpcode(wasm.OpI32Shl)
+			w.WriteI32Const(int32(32 - bits))
+			w.WriteOpcode(wasm.OpI32ShrS)
+		} else {
+			w.WriteI32Const(int32(uint32(1)<<bits - 1))
+			w.WriteOpcode(wasm.OpI32And)
+		}
+		return
+	}
+	if to.IsSignedInteger() {
+		w.WriteOpcode(wasm.OpF64ConvertI32U)
+		w.WriteF64Const(float64(uint64(1)<<(bits-1) - 1))
+		w.WriteOpcode(wasm.OpF64Min)
+		w.WriteOpcode(wasm.OpI32TruncF64S)
+		return
+	}
+	w.WriteOpcode(wasm.OpF64ConvertI32S)
+	w.WriteF64Const(0)
+	w.WriteOpcode(wasm.OpF64Max)
+	w.WriteF64Const(float64(uint64(1)<<bits - 1))
+	w.WriteOpcode(wasm.OpF64Min)
+	w.WriteOpcode(wasm.OpI32TruncF64U)
 }
